@@ -52,6 +52,12 @@ def second_opinion(solver, timeout_s=5, want_model=False):
   txt = solver.to_smt2()
   if want_model:
     txt += '\n(get-model)\n'
+  # the budget of the external solver is wall-clock: stretch it when the machine is oversubscribed, so that a verdict that needs
+  # N cpu-seconds is not turned into `unknown` by other jobs (an exhausted budget is still `unknown`, never success)
+  try:
+    timeout_s = int(timeout_s * min(8.0, max(1.0, 1.5 * os.getloadavg()[0] / (os.cpu_count() or 1))))
+  except OSError:
+    pass
   fd, path = tempfile.mkstemp(suffix='.smt2', dir=os.environ.get('VERIF_TMP'))
   try:
     with os.fdopen(fd, 'w') as f:
